@@ -114,6 +114,18 @@ def subclass_values():
             {LoudStr('quiet'): LoudInt(3)}, {LoudInt(3): LoudFloat(1.5)}, {LoudFloat(2.5): 1}]
 
 
+def surrogate_values():
+    """Strings json accepts although they are not well-formed Unicode: json.dumps
+    escapes every surrogate code point, json.loads joins an adjacent high+low
+    pair into one character and leaves lone ones alone."""
+    hi, lo = '\ud83d', '\ude00'
+    strs = [hi + lo, 'a' + hi + lo + 'b', hi, lo, lo + hi, hi + lo + hi + lo, hi + hi + lo, hi + 'x' + lo]
+    out = list(strs)
+    for x in strs:
+        out += [[x], {x: 1}, {'k': x}, {x: x}, [[x], {'k': [x]}]]
+    return out
+
+
 def nonjson_values():
     class O:
         pass
@@ -225,6 +237,9 @@ def work(ctx, task):
         for v in subclass_values():
             acc.counters['subclass'] += 1
             check_unary(J, v, acc)
+        for v in surrogate_values():
+            acc.counters['surrogates'] += 1
+            check_unary(J, v, acc)
         for v in nonjson_values():
             acc.counters['nonjson'] += 1
             try:
@@ -261,7 +276,7 @@ def coverage(res, tier):
     b = bounds(tier)
     return {
         'states': c.get('unary', 0) + c.get('pair_set_size', 0),
-        'transitions': c.get('unary', 0) + c.get('pairs', 0) + c.get('nonjson', 0) + c.get('subclass', 0),
+        'transitions': c.get('unary', 0) + c.get('pairs', 0) + c.get('nonjson', 0) + c.get('subclass', 0) + c.get('surrogates', 0),
         'traces_validated_against_impl': c.get('unary', 0) + c.get('pairs', 0),
         'values_unary': c.get('unary', 0),
         'distinct_sanitised_values': len(res.outcomes),
@@ -272,6 +287,7 @@ def coverage(res, tier):
         'equivalence_classes': c.get('equivalence_classes', 0),
         'nonjson_values': c.get('nonjson', 0),
         'subclass_values': c.get('subclass', 0),
+        'surrogate_strings': c.get('surrogates', 0),
         'exhaustive': True,
         'bounds': b,
         'rule': 'states = values enumerated (all values with <= unary_nodes constructor nodes over the 13 colliding '
